@@ -9,6 +9,9 @@ input columns [lo, hi), `D k` k-th derivative sample, `P k` pointwise function o
 Lines:
   `new <stage> <dim> <ann> <s0> <p1> <p2>`   → `ok`
   `push <len> <gap>`                         → `ok <blocks>` | `err <Err>`   (continuous stages)
+  `restart <s0>`                             → `ok` | `err ResetNotForwarded` | `err Dead`   (blocked / discard: the
+                                               `Ellipsis` signal through `blockedStepE` / `discardStepE`; the stream
+                                               that follows starts at `s0`, its columns are numbered from 0 again)
   `ev <start> <stop> <e1,e2,…> [q]`          → `ok <blocks>` | `err <Err>`   (event_rate; `q`: this
                                                Events object has sampling rate fs/q instead of fs)
 A block is `s0;fs;ch;md;n;cells`; for non-annotated streams the first four fields are `_`.
@@ -74,7 +77,7 @@ inductive StageSt
   | blocked (b : Nat) (st : BlockedSt Cell Rate String String)
   | downsample (q : Nat) (st : DownSt Cell Rate String String)
   | decimate (q : Nat) (st : Option (DecSt Cell Rate String String (Option Nat)))
-  | discard (st : Nat)
+  | discard (d : Nat) (st : Nat)
   | rms (n : Nat) (st : RmsSt Cell Rate String String)
   | iir (st : Option (Option Nat))
   | derivative (st : Option (P Cell))
@@ -123,7 +126,7 @@ def push (s : St) (len : Nat) (gap : Int) : St × String :=
   | .blocked b st => finish s 0 (.blocked b) s' (blockedStep b st y)
   | .downsample q st => finish s 0 (.downsample q) s' (downsampleStep divFs s.twoD q st y)
   | .decimate q st => finish s 0 (.decimate q) s' (decimateStep symLf (some 0) divFs q st y)
-  | .discard st => finish s 0 .discard s' (discardStep st y)
+  | .discard d st => finish s 0 (.discard d) s' (discardStep st y)
   | .rms n st => finish s n (.rms n) s' (rmsStep symBlock divFs n st y)
   | .iir st => finish s 0 .iir s' (iirStep symLf symInit st y)
   | .derivative st => finish s 0 .derivative s' (derivativeStep Cell.ini symDiff st y)
@@ -132,6 +135,22 @@ def push (s : St) (len : Nat) (gap : Int) : St × String :=
     finish s 0 (.autoTh bl) s' (autoThStep symThr symCmp (fun _ m => m ++ "+th") bl st y)
   | .eventRate .. => (s, "bad-op")
   | .dead => (s, "err Dead")
+
+/-- the `Ellipsis` signal: must come out exactly once and alone -/
+def restart (s : St) (s0 : Int) : St × String :=
+  let fin {σ : Type} (wrap : σ → StageSt) (r : Except Err (List (Sig (P Cell)) × σ)) : St × String :=
+    match r with
+    | .error e => ({ s with stage := .dead }, s!"err {showErr e}")
+    | .ok (out, st) =>
+      ({ s with stage := wrap st, pos := 0, s0 := s0 },
+       match out with
+       | [.restart] => "ok"
+       | _ => "err ResetNotForwarded")
+  match s.stage with
+  | .blocked b st => fin (.blocked b) (blockedStepE b st .restart)
+  | .discard d st => fin (.discard d) (discardStepE d st .restart)
+  | .dead => (s, "err Dead")
+  | _ => (s, "bad-op")
 
 def showRateBlocks (l : List (PD Nat Rate String String)) : String :=
   if l.isEmpty then "ok -" else
@@ -153,7 +172,7 @@ def mkStage (name : String) (p1 p2 : Nat) : Option StageSt :=
   | "blocked" => some (.blocked p1 {})
   | "downsample" => some (.downsample p1 {})
   | "decimate" => some (.decimate p1 none)
-  | "discard" => some (.discard p1)
+  | "discard" => some (.discard p1 p1)
   | "rms" => some (.rms p1 {})
   | "iirfilter" => some (.iir none)
   | "derivative" => some (.derivative none)
@@ -176,6 +195,10 @@ def step (s : St) (ws : List String) : St × String :=
     match parseNat? len, parseInt? gap with
     | some len, some gap => push s len gap
     | _, _ => (s, "bad-op")
+  | ["restart", s0] =>
+    match parseInt? s0 with
+    | some s0 => restart s s0
+    | none => (s, "bad-op")
   | ["ev", start, stop, evs] =>
     match parseNat? start, parseNat? stop, parseNats? evs with
     | some a, some b, some l => pushEv s a b l []
